@@ -42,3 +42,39 @@ func devExec(args []string) {
 		}
 	}
 }
+
+// devCommitTrace: prints the callback kinds seen after the first SetValue of committed transactions (to study the commit phase).
+func devCommitTrace(args []string) {
+	seen := map[string]int{}
+	for s := uint64(1); s <= 30; s++ {
+		r := NewRng(s)
+		g := &Gen{R: r, Cfg: cfgFor("C23", r)}
+		p := g.Plan(s)
+		p.Nodes = p.Nodes[:1]
+		run := NewRunner(p, RunOpts{})
+		for i := range p.Steps {
+			run.step(i)
+			t := run.Nodes[0].lastT
+			if t == nil || len(t.Writes) == 0 {
+				continue
+			}
+			first := t.Writes[0].Seq
+			var ks []string
+			for _, c := range t.Trace[first:] {
+				k := c.Kind
+				if k == "SetValue" {
+					if len(c.Arg) > 17 && c.Arg[17:] == "73746f726564" {
+						k = "SetValue(stored)"
+					}
+				}
+				if len(ks) == 0 || ks[len(ks)-1] != k {
+					ks = append(ks, k)
+				}
+			}
+			seen[fmt.Sprint(ks)]++
+		}
+	}
+	for k, v := range seen {
+		fmt.Println(v, k)
+	}
+}
